@@ -46,15 +46,21 @@ Section TRY.
   | TS_control s f s1 r s2 :          (* return / break / continue leave through the try *)
       ev body s = (RFail f, s1) -> (forall e, f <> FThrow e) -> not_unsup f ->
       fin_spec fin (inr f) s1 r s2 -> try_inner body clauses fin s r s2
+  | TS_foreign s w s1 r s2 :          (* a non-std C++ exception: no clause can see it; finally, then it continues *)
+      ev body s = (RFail (FThrow (EForeign w)), s1) -> fin_spec fin (inr (FThrow (EForeign w))) s1 r s2 ->
+      try_inner body clauses fin s r s2
   | TS_caught s e s1 ex s1' d s2 r s3 :
+      (forall w, e <> EForeign w) ->
       ev body s = (RFail (FThrow e), s1) -> R (box_exception e) s1 = (RVal ex, s1') ->
       handled ex clauses s1' (RVal (Some d)) s2 -> fin_spec fin (inl d) s2 r s3 ->
       try_inner body clauses fin s r s3
   | TS_uncaught s e s1 ex s1' s2 r s3 :
+      (forall w, e <> EForeign w) ->
       ev body s = (RFail (FThrow e), s1) -> R (box_exception e) s1 = (RVal ex, s1') ->
       handled ex clauses s1' (RVal None) s2 -> fin_spec fin (inr (FThrow e)) s2 r s3 ->
       try_inner body clauses fin s r s3
   | TS_catch_fails s e s1 ex s1' f s2 r s3 :   (* the taken catch block threw, returned, broke or continued *)
+      (forall w, e <> EForeign w) ->
       ev body s = (RFail (FThrow e), s1) -> R (box_exception e) s1 = (RVal ex, s1') ->
       handled ex clauses s1' (RFail f) s2 -> not_unsup f -> fin_spec fin (inr f) s2 r s3 ->
       try_inner body clauses fin s r s3.
@@ -120,19 +126,22 @@ Section TRY.
       + eapply TS_control; eauto; [discriminate|exact I|]. apply run_finally_spec; assumption.
       + eapply TS_control; eauto; [discriminate|exact I|]. apply run_finally_spec; assumption.
       + (* an exception *)
-        cbn [run] in E. rewrite run_bind in E.
-        destruct (R (box_exception e) s0) as [[ex|fb|] s0'] eqn:Ebox.
-        * destruct (R (handle_exception clauses ex) s0') as [[[d|]|fh|] s2] eqn:Eh.
-          -- eapply TS_caught; eauto; [eapply handle_exception_spec; eauto; discriminate|]. apply run_finally_spec; assumption.
-          -- eapply TS_uncaught; eauto; [eapply handle_exception_spec; eauto; discriminate|]. apply run_finally_spec; assumption.
-          -- destruct fh as [d| | |e'|w]; try (eapply TS_catch_fails; eauto; [eapply handle_exception_spec; eauto; discriminate|exact I|apply run_finally_spec; assumption]).
-             cbn in E. inversion E; subst. exfalso. eapply Hu; reflexivity.
-          -- inversion E; subst. exfalso; apply Hr; reflexivity.
-        * (* boxing the exception only allocates *)
-          exfalso. destruct e; cbn in Ebox; try discriminate;
-            unfold new_value in Ebox; rewrite run_bind in Ebox; cbn in Ebox; discriminate.
-        * exfalso. destruct e; cbn in Ebox; try discriminate;
-            unfold new_value in Ebox; rewrite run_bind in Ebox; cbn in Ebox; discriminate.
+        destruct e as [bd|reason st|ty w|w];
+          [ | | | cbn [run] in E; eapply TS_foreign; eauto; apply run_finally_spec; assumption ];
+          (cbn [run] in E; rewrite run_bind in E;
+           match type of E with context [R (box_exception ?e0) s0] =>
+             assert (Hnf : forall w0, e0 <> EForeign w0) by (intros w0 X; discriminate);
+             destruct (R (box_exception e0) s0) as [[ex|fb|] s0'] eqn:Ebox;
+             [ destruct (R (handle_exception clauses ex) s0') as [[[d'|]|fh|] s2] eqn:Eh;
+               [ eapply TS_caught; eauto; [eapply handle_exception_spec; eauto; discriminate|]; apply run_finally_spec; assumption
+               | eapply TS_uncaught; eauto; [eapply handle_exception_spec; eauto; discriminate|]; apply run_finally_spec; assumption
+               | destruct fh as [d'| | |e'|w'];
+                 try (eapply TS_catch_fails; eauto; [eapply handle_exception_spec; eauto; discriminate|exact I|apply run_finally_spec; assumption]);
+                 cbn in E; inversion E; subst; exfalso; eapply Hu; reflexivity
+               | inversion E; subst; exfalso; apply Hr; reflexivity ]
+             | exfalso; cbn in Ebox; try discriminate; unfold new_value in Ebox; rewrite run_bind in Ebox; cbn in Ebox; discriminate
+             | exfalso; cbn in Ebox; try discriminate; unfold new_value in Ebox; rewrite run_bind in Ebox; cbn in Ebox; discriminate ]
+           end).
       + cbn in E. inversion E; subst. exfalso. eapply Hu; reflexivity.
     - inversion E; subst. exfalso; apply Hr; reflexivity.
   Qed.
